@@ -306,13 +306,13 @@ def readBucket {κ} (b : Bucket κ) (start stop : Int) : List OutRow :=
       else ⟨r.sec, 0, r.payload⟩)
 
 /-- the C25 predicate on two answers: same rows; for variable-length buckets timestamps may differ by
-    one tick (`tf / 2^32`, at least 1 ns) -/
+    one tick (`tf / 2^32` ns rounded up: decode → encode → decode on the replica loses at most one tick) -/
 def sameAnswer (tf : Int) (m r : List OutRow) : Bool :=
   m == r ||
   (m.length == r.length &&
    (m.zip r).all (fun p =>
      let d := (p.1.sec * nsPerSec + p.1.nanos) - (p.2.sec * nsPerSec + p.2.nanos)
-     let res := max 1 (tf / 4294967296)
+     let res := max 1 ((tf + 4294967295) / 4294967296)
      p.1.payload == p.2.payload && decide (d ≤ res) && decide (-d ≤ res)))
 
 end Mkts.Repl
